@@ -137,7 +137,11 @@ pub fn lifetime(c: &LifetimeCfg, seed: u64) -> Result<(bool, u64, u64), (String,
                 let batch = wm.new_write_batch();
                 let epoch = batch.verif_epoch();
                 let mut o = Open { batch, info: BatchInfo { epoch, wide: HashMap::new(), sets: HashMap::new() } };
-                fill(&mut o, &mut r);
+                // (one batch in six stays empty: an input session that writes nothing still
+                // submits its batch, and the pipeline must not lose its place in the sequence)
+                if !r.chance(1, 6) {
+                    fill(&mut o, &mut r);
+                }
                 match r.below(4) {
                     0 => submit(o),
                     _ => pool.lock().push(o),
